@@ -15,8 +15,10 @@ for d in sorted(glob.glob(os.path.join(HERE, "seeded", "*"))):
     if not os.path.exists(mp):
         continue
     m = json.load(open(mp))
-    for prop in m.get("detected_by", []):
-        rules = m["checks"][prop].get("rules") or []
+    # only the pairing confirmed by the last full pass of tools/seedrecheck.py: a kept change and the check of the property it was
+    # written against (what other properties' checks say about it is recorded in meta.json but not re-confirmed on every pass)
+    for prop in ([m["property"]] if m.get("detected_by_target_property") else []):
+        rules = (m["checks"].get(prop) or {}).get("rules") or []
         out.append({"patch": "../seeded/%s/patch.diff" % os.path.basename(d), "kind": "mutant", "properties": [prop],
                     "expect": rules[0] if rules else "", "breaks": m["property"]})
 for d in sorted(glob.glob(os.path.join(HERE, "refactors", "R*-r*"))):
